@@ -181,6 +181,52 @@ def handle (op : String) (args : List String) : Option (String × String) :=
     if ¬ WordsOk w then none else
     pure ("ok " ++ showBigInt (BigInt.assignFromSlice old s w), "ok " ++ showBigInt (BigInt.ofInt (Sign.toInt s * (val32 w : Int))))
   | "hist", args => hist args
+  -- api-coverage: PartialOrd (`partial_cmp`, provided `< <= > >=`), `!=`, Clone::clone
+  | "u.partial_cmp", [a, b] => do
+    let a ← parseLimbs a; let b ← parseLimbs b
+    pure (showOpt showOrd (BigUint.partialCmp a b), "some " ++ showOrd (compare (val a) (val b)))
+  | "i.partial_cmp", [a, b] => do
+    let a ← parseBigInt a; let b ← parseBigInt b
+    pure (showOpt showOrd (BigInt.partialCmp a b), "some " ++ showOrd (compare a.val b.val))
+  | "u.rel", [a, b] => do
+    let a ← parseLimbs a; let b ← parseLimbs b
+    let c := BigUint.partialCmp a b
+    let x := val a; let y := val b
+    pure ("ok " ++ showBool (pLt c) ++ showBool (pLe c) ++ showBool (pGt c) ++ showBool (pGe c) ++ showBool (!(BigUint.eq a b)),
+          "ok " ++ showBool (decide (x < y)) ++ showBool (decide (x ≤ y)) ++ showBool (decide (x > y)) ++ showBool (decide (x ≥ y))
+            ++ showBool (decide (x ≠ y)))
+  | "i.rel", [a, b] => do
+    let a ← parseBigInt a; let b ← parseBigInt b
+    let c := BigInt.partialCmp a b
+    let x := a.val; let y := b.val
+    pure ("ok " ++ showBool (pLt c) ++ showBool (pLe c) ++ showBool (pGt c) ++ showBool (pGe c) ++ showBool (!(BigInt.eq a b)),
+          "ok " ++ showBool (decide (x < y)) ++ showBool (decide (x ≤ y)) ++ showBool (decide (x > y)) ++ showBool (decide (x ≥ y))
+            ++ showBool (decide (x ≠ y)))
+  | "u.clone", [a] => do
+    let a ← parseLimbs a
+    pure ("ok " ++ showLimbs (BigUint.clone a), "ok " ++ showLimbs (ofNat (val a)))
+  | "i.clone", [a] => do
+    let a ← parseBigInt a
+    pure ("ok " ++ showBigInt (BigInt.clone a), "ok " ++ showBigInt (BigInt.ofInt a.val))
+  -- api-coverage: `arbitrary::Arbitrary` (value from a byte buffer).  Model: NB.Core.BigUint.arbitrary /
+  -- BigInt.arbitrary (decoding of the `arbitrary` crate + `biguint_from_vec` / `from_biguint`); oracle: the
+  -- integer denoted by the decoded digits (`val`), re-encoded canonically.
+  | "arb.u", [bs] | "arb.u_rest", [bs] => do
+    let bs ← parseBytes bs
+    let ds := (arbVecU64 (bs.length + 1) bs).1
+    pure ("ok " ++ showLimbs (BigUint.arbitrary bs), "ok " ++ showLimbs (ofNat (val ds)))
+  | "arb.i", [bs] | "arb.i_rest", [bs] => do
+    let bs ← parseBytes bs
+    let ds := (arbVecU64 bs.length (bs.drop 1)).1
+    let v : Int := if bs.headD 0 % 2 = 1 then (val ds : Int) else - (val ds : Int)
+    pure ("ok " ++ showBigInt (BigInt.arbitrary bs), "ok " ++ showBigInt (BigInt.ofInt v))
+  -- `size_hint`: `Vec::<u64>::size_hint` = (0, None); BigInt: `and(bool (1, Some 1), (0, None))` = (1, None)
+  | "arb.u_size_hint", [_] => pure ("ok 0 none", "-")
+  | "arb.i_size_hint", [_] => pure ("ok 1 none", "-")
+  -- `quickcheck::Arbitrary`: the harness checks in-process that the generated value and every shrink candidate is
+  -- canonical and equals the normalised `Vec<u64>` reference drawn from an identically seeded `Gen`
+  -- (three flags); quickcheck's RNG is not modelled
+  | "qc.u", [_, _] | "qc.i", [_, _] => pure ("ok 111", "ok 111")
   | _, _ => none
 
 end NB.Drv.C04
